@@ -116,7 +116,13 @@ def _fget(o):
     return getattr(o, "fget", None) or o
 
 
+def lookup(module, qualname, attr=None):
+    """parameters named like the keys of an encoded type"""
+    return module
+
+
 FUNCS = {
+    "lookup": lookup,
     "plain": plain, "kwonly": kwonly, "posonly": posonly, "gen": gen, "gen_none": gen_none, "coro": coro,
     "wrapped": wrapped.__wrapped__, "wrapped_twice": wrapped_twice.__wrapped__.__wrapped__,
     "K.method": K.method, "K.cmeth": K.cmeth.__func__, "K.smeth": K.smeth, "K.prop": K.__dict__["prop"].fget,
